@@ -160,6 +160,10 @@ class Ctx:
                     self.known_hits.append({"signature": signature, "what": k.get("what", what)})
                     print(f"KNOWN-FINDING: property={self.prop} {k.get('what', what)}", flush=True)
                 return
+        for v in self.violations:
+            if v["signature"] == signature:
+                v["count"] = v.get("count", 1) + 1
+                return
         if len(self.violations) >= 25:
             return
         path = self.write_replay({"property": self.prop, "signature": signature, "what": what, "replay": replay})
